@@ -8,6 +8,6 @@ for s in $SEEDS; do
   for p in $PROPS; do
     OUT=$(VERIF_SEED=$s /venv/bin/python -m vcheck run $p --tier $TIER 2>&1); RC=$?
     echo "seed=$s $p exit=$RC $(echo "$OUT" | grep "^$p tier" | sed 's/.*: //')"
-    if [ $RC -ne 0 ]; then echo "$OUT" | grep -A6 "violation groups\|HARNESS\|Traceback" | head -12; fi
+    if [ $RC -ne 0 ]; then echo "$OUT" | grep -A40 "violation groups\|HARNESS\|Traceback" | head -60; fi
   done
 done
